@@ -102,7 +102,10 @@ func (m c14mon) Check(s *sim.Sim, st *sim.Step) []*sim.Violation {
 			vs = append(vs, vio("C14", "identity-from-other-provider", "provider %q reported an identity minted by %q", prov, rep.Provider))
 		}
 		if pid, put := sim.SessPut(rec, "uid"); put {
-			if pid != want {
+			if pid != want && rememberJustifies(s, st, pid) {
+				// the remember middleware re-authenticated this browser earlier in the same request and the
+				// callback itself was stopped (lock/confirm): not the callback's doing
+			} else if pid != want {
 				vs = append(vs, vio("C14", "session-names-other-identity", "callback for (%s,%q) put uid=%q, want %q", prov, rep.UID, pid, want))
 			} else {
 				m.stats.Count("login-ok")
